@@ -48,6 +48,17 @@ static void pred_pca(const Case &c) {
   VF_CHECK(got == want && (int)m->scores->col == want && (int)m->loadings->col == want, "PCA returned %d components, %d requested (p=%d)", got, npc, p);
   M T = from_lib(m->scores), L = from_lib(m->loadings);
   ld ss = 0; for (ld x : P.X.a) ss += x * x;
+  // noise floor: the library's preprocessed matrix differs from the exact one by the rounding of the centring / scaling (relative to
+  // the column's OFFSET, not to its variation): a perturbed constant column 1 + O(2^-40) centres to values of 1e-12 carrying 1e-16.
+  // A component is called "defined" only when its singular value stands clear of that floor, and the floor may show up as variance
+  // beyond the rank.
+  ld noise2 = 0;
+  { V b = prep_col_bound(A, P, scaling); for (int j = 0; j < p; j++) { bool zeroed = true; for (int i = 0; i < n; i++) if (P.X(i, j) != 0) zeroed = false; if (!zeroed || scaling < 1) noise2 += n * b[j] * b[j]; } }
+  ld noise = sqrtl(noise2);
+  int exact_rank = rank;
+  while (rank > 0 && !(sv[rank - 1] > 10 * noise)) rank--;
+  if (rank < exact_rank) tag("rank-lowered-by-noise-floor");
+  ld beyond = 1e-12L + (ss > 0 ? 400 * 100 * noise2 / ss : 0);
   for (int k = 0; k < want; k++) {
     double ve = m->varexp->data[k];
     VF_CHECK(!std::isnan(ve), "explained variance of component %d is NaN (rank %d, n=%d p=%d scaling=%d)", k, rank, n, p, scaling);
@@ -59,13 +70,14 @@ static void pred_pca(const Case &c) {
       for (int q = 0; q < k; q++) { ld dp = 0; for (int j = 0; j < p; j++) dp += L(j, k) * L(j, q); VF_CHECK(fabsl(dp) <= 1e-6L, "defined loadings %d and %d not orthogonal: %.3Lg", k, q, dp); }
       ld tt = 0; for (int i = 0; i < n; i++) tt += T(i, k) * T(i, k);
       VF_CLOSE(ve, 100 * tt / ss, 1e-6L * (100 * tt / ss) + 1e-9L, "explained variance of a defined component vs t't/ss");
-    } else VF_CHECK(ve >= 0 && ve <= 1e-12, "explained variance beyond the rank: component %d has %.3g %% (rank %d)", k, ve, rank);
+    } else if (k >= exact_rank) VF_CHECK(ve >= 0 && ve <= beyond, "explained variance beyond the rank: component %d has %.3g %% (rank %d, allowed %.3Lg)", k, ve, exact_rank, beyond);
+    else VF_CHECK(ve >= 0 && ve <= 100 * (1 + 1e-9), "explained variance of component %d = %.3g %%", k, ve);
   }
   // X0 = T P' + E on the defined components
   if (rank >= 1) {
     int kk = std::min(rank, want); ld nE = sqrtl(ss), err = 0;
     M R = P.X; for (int k = 0; k < kk; k++) for (int i = 0; i < n; i++) for (int j = 0; j < p; j++) R(i, j) -= T(i, k) * L(j, k);
-    if (kk == rank) { err = fro(R); VF_CHECK(err <= 1e-6L * nE + 1e-12L, "all %d defined components taken but |X0 - T P'| = %.3Lg (|X0| = %.3Lg)", rank, err, nE); }
+    if (kk == rank) { err = fro(R); ld rest = 0; for (size_t q = (size_t)rank; q < sv.size(); q++) rest += sv[q] * sv[q]; VF_CHECK(err <= 1e-6L * nE + 1e-12L + sqrtl(rest) + 2 * noise, "all %d defined components taken but |X0 - T P'| = %.3Lg (|X0| = %.3Lg)", rank, err, nE); }
   }
   DelPCAModel(&m); DelMatrix(&mx);
   tag(ticks(0) < 100 ? "pca-iterations<100" : ticks(0) < 10000 ? "pca-iterations<1e4" : "pca-iterations>=1e4");
